@@ -36,12 +36,15 @@ PROPS = {
     },
     "C01": {
         "level": EXPL,
-        "plan": [{"engine": "shipsim1", "timeout": T_SIM}, {"engine": "shipsim2", "timeout": T_SIM}],
+        "plan": [{"engine": "shipsim1", "timeout": T_SIM}, {"engine": "shipsim2", "timeout": T_SIM},
+                 {"engine": "hubnet", "timeout": {"quick": 900, "thorough": 5400}, "shards": 12}],
         "rule": "B1: one real ShipConnection in a synctest bubble; histories = cooperative prefix (every reachable handshake state, both roles, 5 trust "
                 "configurations) x every input class of the alphabet (valid/out-of-phase/mutated SHIP messages, data frames, timer expiries in "
                 "virtual time, approve/cancel, transport errors, write faults) + seeded random histories <= 24 events; B2: two real endpoints with "
                 "seeded interleavings. A case is distinct by (role, state at delivery, input class) / grant kind; the monitor flags any state >= hello-ok, "
-                "setup callback or payload delivery on a server-role connection without a grant (paired answer, auto-accept answer, user approval) or after a cancel",
+                "setup callback or payload delivery on a server-role connection without a grant (paired answer, auto-accept answer, user approval) or after a cancel; "
+                "hub level: three real hubs and operation scripts (register, unregister, cancel, auto-accept, disconnect, shutdown, mDNS hide/show, peers registering/unregistering): "
+                "no SetupRemoteDevice for a SKI that is not registered at that moment with auto-accept off",
         "floors": {"evaluations": 3000, "classes": 80, "counters": {"shipsim1:scenarios-complete": 200}},
         "assumptions": ["info provider answers mirror hub.Hub (trusted set on hello-ok is not counted as a grant)", "frames shorter than 2 bytes never reach the SHIP layer (ws layer)"],
     },
